@@ -57,7 +57,9 @@ def run(ctx):
     ctx.rule('C02.R4', 'side consistency: winner/loser tuples, DeleteVsModify source side, Propagate directions', floor=5)
     ctx.rule('C02.R5', 'the next archive derives from the loaded one only through a filter over both live scans', floor=1)
     ctx.rule('C02.R6', 'decision table: deletes only with same(survivor, base) (C18 engine)', floor=15)
+    ctx.rule('C02.R7', 'every successful non-dry-run exit of run_bisync passes Archive::save (stale base entries are dropped there)', floor=1)
     bs = deletes_only_on_delete_arms(ctx, F, 'C02.R1')
+    bs.every_success_records(ctx, 'C02.R7')
     fl = bs.afl
     cfg = fl.cfg
     copies = bs.copy_sites()
